@@ -17,8 +17,12 @@ from pv.core import Sub, Violation, call, check, short
 from pv.codec import D0, mkdt
 
 ASSUMPTIONS = [
-    'a timeseries has a strictly increasing DatetimeIndex without duplicate stamps (is_ts warns about unsorted ones; pandas label slicing, '
-    'used as fast path, is positional on unsorted axes), no timezone, second resolution',
+    'a timeseries has a non-decreasing DatetimeIndex (is_ts warns about unsorted ones; pandas label slicing, used as fast path, is positional on '
+    'unsorted axes), no timezone, second resolution; a third to a half of the single-slice cases (and half of the n = 1 stitching cases) repeat 1-2 stamps 2-3 times: '
+    'the statement is a plain row filter, so every row carrying a stamp is in or out together and rows keep their order. n >= 2 stitching and df_unslice keep '
+    'duplicate-free series (the column-wise concat of pandas raises on duplicate labels: not well defined there)',
+    'KNOWN DEFECT excluded by construction in slice_tod (KNOWN c13.tod_wrap_reorders_duplicate_stamps): a wrapping time-of-day window on an index with a repeated stamp '
+    'that keeps more than 16 rows comes back with the rows of equal stamp reordered (unstable sort_index after the concat); PV_C13_INCLUDE_KNOWN=1 puts the class back',
     'single slices: Series (named or not) and DataFrames of 1-3 columns holding floats (with NaN), ints or strings; 0-11 rows (0-15 in the thorough tier)',
     'date bounds are given as datetime / pandas.Timestamp / numpy.datetime64, and as datetime.date or "YYYYMMDD" text when they fall on midnight '
     '(other spellings of dates are the subject of C04); no today-relative bounds',
@@ -198,11 +202,22 @@ def _subset(draw, universe, empty_one_in=12):
     return [x for x, keep in zip(universe, mask) if keep] or [universe[0]]
 
 
+def _with_repeats(draw, items, one_in=3):
+    """items (sorted) with 1-2 of them repeated 2-3 times, in one case of `one_in`; -> (items, the repeated ones)"""
+    if not items or draw(st.integers(1, one_in)) != one_in:
+        return items, []
+    which = draw(st.lists(st.integers(0, len(items) - 1), min_size=1, max_size=2, unique=True))
+    out = []
+    for i, x in enumerate(items):
+        out.extend([x] * (1 + (draw(st.integers(1, 2)) if i in which else 0)))
+    return out, [items[i] for i in sorted(which)]
+
+
 @st.composite
 def _dates_case(draw, maxk=MAXK):
     oc, style = _oc_and_call(draw)
     axis = draw(st.integers(0, len(_AXES) - 1))
-    ks = _subset(draw, list(range(maxk + 1)))
+    ks, rep = _with_repeats(draw, _subset(draw, list(range(maxk + 1))), one_in=2)
     kind, name, cols = draw(_ts_shape(len(ks)))
     hi = 2 * (max(ks) if ks else 3) + 3
 
@@ -211,7 +226,7 @@ def _dates_case(draw, maxk=MAXK):
         if mode == 'none':
             return None
         if mode == 'on' and ks:
-            return 2 * draw(st.sampled_from(ks))
+            return 2 * draw(st.sampled_from(rep if rep and draw(st.booleans()) else ks))
         if mode == 'edge':
             return draw(st.sampled_from([-3, -2, -1, hi - 2, hi - 1, hi]))
         return draw(st.integers(-3, hi))
@@ -272,6 +287,18 @@ def _position(t, stamps):
     return 'between'
 
 
+def _dup_classes(stamps, bounds, key):
+    """class labels for repeated stamps; bounds = [(value, closed?)], key maps a stamp to what the bound is compared with"""
+    if len(set(stamps)) == len(stamps):
+        return []
+    repeated = set(key(t) for t in stamps if stamps.count(t) > 1)
+    cls = ['duplicate_stamps']
+    for b, closed in bounds:
+        if b is not None and b in repeated:
+            cls.append('duplicate_stamp_on_closed_bound' if closed else 'duplicate_stamp_on_open_bound')
+    return sorted(set(cls))
+
+
 def run_slice_dates(spec):
     axis = spec['axis']
     stamps = [_stamp(axis, 2 * k) for k in spec['rows']]
@@ -311,6 +338,7 @@ def run_slice_dates(spec):
             cls.append('form=' + bd[1])
     if 0 < len(keep) < len(stamps):
         cls.append('proper_subset')
+    cls.extend(_dup_classes(stamps, [(lbt, l), (ubt, u)], lambda t: t))
     return dict(nt=(pl == 'on' or pu == 'on'), cls=cls)
 
 
@@ -356,20 +384,26 @@ EXCLUDE_KNOWN_BY_CONSTRUCTION = os.environ.get('PV_C13_EXCLUDE_FIXED', '') == '1
 def _tod_case(draw):
     shape = draw(st.sampled_from(['wrap', 'wrap', 'window', 'window', 'lb_only', 'ub_only']))
     oc, style = _oc_and_call(draw)
-    days = _subset(draw, [0, 1, 2, 4], empty_one_in=0) or [0]
-    grid = _subset(draw, _TOD_GRID, empty_one_in=0) or [43200]
+    if draw(st.integers(1, 8)) == 8:
+        days, grid = [0, 1, 2, 4], list(_TOD_GRID)       # a long series (21-32 rows): sorting more than 16 rows is where an unstable sort shows
+    else:
+        days = _subset(draw, [0, 1, 2, 4], empty_one_in=0) or [0]
+        grid = _subset(draw, _TOD_GRID, empty_one_in=0) or [43200]
     cells = sorted((d, s) for d in days for s in grid)
     drop = draw(st.sets(st.integers(0, len(cells) - 1), max_size=len(cells) // 3))
     rows = [list(c) for i, c in enumerate(cells) if i not in drop]
     if draw(st.integers(1, 15)) == 15:
         rows = []
+    rows, rep = _with_repeats(draw, rows)
     kind, name, cols = draw(_ts_shape(len(rows)))
     secs = sorted(set(r[1] for r in rows))
+    rep_secs = sorted(set(r[1] for r in rep))
 
     def bound(exclude=None):
         on = [t for t in secs if t != exclude]
+        pref = [t for t in rep_secs if t != exclude]
         if on and draw(st.integers(0, 3)):
-            return draw(st.sampled_from(on))
+            return draw(st.sampled_from(pref if pref and draw(st.booleans()) else on))
         return draw(st.sampled_from([t for t in _TOD_GRID + _TOD_OFF if t != exclude]))
     x = bound()
     y = bound(exclude=x if shape == 'wrap' else None)
@@ -384,8 +418,41 @@ def _tod_case(draw):
     return dict(rows=rows, kind=kind, name=name, cols=cols, lb=lb, ub=ub, oc=oc, call=style)
 
 
+def _is_known_wrap_dup(spec):
+    """
+    a wrapping time-of-day window (start > end) on an index in which a stamp occurs more than once, keeping more than 16 rows:
+    the two halves are concatenated and put back in order with an UNSTABLE sort_index(), so rows of equal stamp change places
+    (numpy's quicksort is an insertion sort - stable - up to 16 elements).
+    """
+    lb, ub = spec.get('lb'), spec.get('ub')
+    if lb is None or ub is None or not lb > ub:
+        return False
+    rows = [tuple(r) for r in spec['rows']]
+    if len(set(rows)) == len(rows):
+        return False
+    l, u = _lu(spec['oc'])
+    kept = [r for r in rows if (r[1] >= lb if l else r[1] > lb) or (r[1] <= ub if u else r[1] < ub)]
+    return len(kept) > 16
+
+
+KNOWN['c13.tod_wrap_reorders_duplicate_stamps'] = _is_known_wrap_dup
+EXCLUDE_WRAP_DUP = os.environ.get('PV_C13_INCLUDE_KNOWN', '') != '1'
+
+
 def _tod_strategy(tier):
     s = _tod_case()
+    if EXCLUDE_WRAP_DUP:
+        def dedupe(spec):
+            if _is_known_wrap_dup(spec):
+                # construction, not filtering: the same window on the same stamps, each stamp once
+                rows = []
+                for r in spec['rows']:
+                    if r not in rows:
+                        rows.append(r)
+                cols = [dict(c, nan=[i for i in c['nan'] if i < len(rows)]) if 'nan' in c else c for c in spec['cols']]
+                spec = dict(spec, rows=rows, cols=cols)
+            return spec
+        s = s.map(dedupe)
     if EXCLUDE_KNOWN_BY_CONSTRUCTION:
         def repair(spec):
             if _is_known_f10(spec):
@@ -433,6 +500,10 @@ def run_slice_tod(spec):
         cls.append('letters')
     if spec['call'] == 'default':
         cls.append('default_brackets')
+    dup = _dup_classes(stamps, [(lb, l), (ub, u)], lambda t: t.time())
+    cls.extend(dup)
+    if dup and wrap:
+        cls.append('duplicate_stamps_wrap')
     return dict(nt=(lb_on or ub_on), cls=cls)
 
 
@@ -480,6 +551,14 @@ def _stitch_case(draw, unslice=False, max_series=5, maxk=12):
         series.append(ser)
     if unslice:
         return dict(series=series, bounds=bounds, n=n)
+    if n == 1 and draw(st.integers(1, 2)) == 2:
+        # repeated stamps (well defined for n = 1 only), preferably on a bound
+        for ser in series:
+            ks = ser['rows']
+            if ks and draw(st.booleans()):
+                cand = [k for k in ks if 2 * k in bounds]
+                k = draw(st.sampled_from(cand if cand and draw(st.integers(0, 2)) else ks))
+                ser['rows'] = sorted(ks + [k] * draw(st.integers(1, 2)))
     if open_end:
         if form == 'ub':
             bounds[-1] = None
@@ -547,6 +626,11 @@ def _stitch_strategy(tier, unslice=False):
     return s
 
 
+class _Model(dict):
+    """{stamp: value} of one series; .pairs keeps every row [(stamp, value)] in order (stamps may repeat when n = 1)"""
+    pairs = None
+
+
 def _st_build(series, vtype='f', kind='series'):
     """-> (list of pandas objects as passed to df_slice, list of models {stamp: value})"""
     import pandas as pd
@@ -555,15 +639,18 @@ def _st_build(series, vtype='f', kind='series'):
         ks = s['rows']
         nan_at = set(s.get('nan', ()))
         stamps = [_st_stamp(2 * k) for k in ks]
+        occ = [ks[:j].count(k) for j, k in enumerate(ks)]      # 0 for the first row on a stamp, 1 for its first repetition ...
         if vtype == 'i' and not nan_at:
-            vals = [1000 * (i + 1) + k for k in ks]
+            vals = [1000 * (i + 1) + k + 100000 * o for k, o in zip(ks, occ)]
             dtype = 'int64'
         else:
-            vals = [_nan() if k in nan_at else 1000.0 * (i + 1) + k + 0.5 for k in ks]
+            vals = [_nan() if k in nan_at else 1000.0 * (i + 1) + k + 0.5 + 0.01 * o for k, o in zip(ks, occ)]
             dtype = 'float64'
         ser = pd.Series(vals, index=pd.DatetimeIndex(stamps), dtype=dtype)
         objs.append(ser if kind == 'series' else pd.DataFrame({'a': ser}))
-        models.append(dict(zip(stamps, vals)))
+        mdl = _Model(zip(stamps, vals))
+        mdl.pairs = list(zip(stamps, vals))
+        models.append(mdl)
     return objs, models
 
 
@@ -588,11 +675,16 @@ def _stitch_model(models, bounds, form, oc, n):
     for i in range(len(order)):
         lo, hi = los[i], his[i]
         members = [models[k] for k in order[i: i + n]]
+
+        def inside(t):
+            return (lo is NEG or (t >= lo if l else t > lo)) and (hi is POS or (t <= hi if u else t < hi))
+        if n == 1 and getattr(members[0], 'pairs', None) is not None:
+            # one series per interval: its rows, one by one (a stamp may occur several times)
+            out.extend((t, [v]) for t, v in members[0].pairs if inside(t))
+            continue
         stamps = sorted(set(t for mdl in members for t in mdl))
         for t in stamps:
-            ok_lo = lo is NEG or (t >= lo if l else t > lo)
-            ok_hi = hi is POS or (t <= hi if u else t < hi)
-            if ok_lo and ok_hi:
+            if inside(t):
                 out.append((t, [members[j].get(t, _nan()) if j < len(members) else _nan() for j in range(n)]))
     return out, order
 
@@ -671,6 +763,11 @@ def run_stitch(spec):
         cls.append('empty_result')
     if spec['kind'] == 'frame':
         cls.append('frames')
+    repeated = set(t for mdl in models for t, _ in mdl.pairs if [p[0] for p in mdl.pairs].count(t) > 1)
+    if repeated:
+        cls.append('duplicate_stamps')
+        if any(b in repeated for b in real):
+            cls.append('duplicate_stamp_on_bound')
     if len(set(min((i for i in range(len(order)) if t in models[order[i]]), default=-1) for t, _ in exp)) >= 2:
         cls.append('several_sources')
     nt = len(objs) >= 2 and len(exp) >= 2 and (on or dec or (n >= 2 and gaps))
@@ -744,18 +841,18 @@ SUBS = [
     Sub('slice_dates', lambda tier: _dates_case(maxk=14 if tier == 'thorough' else MAXK), run_slice_dates, quick=4000, thorough=7000,
         rule='Series/DataFrames of 0-11 rows on 4 irregular time axes (daily, every 2nd day, hourly across midnight, 6-hourly at hh:00:01), bounds missing / on an index point / '
              'between / before / after, as datetime, Timestamp, datetime64, date or text; 4 bracket pairs, letter forms, default; oracle: row filter with < / <= on datetimes, '
-             'rows, labels, dtypes and cells untouched, operand untouched. non-trivial = a bound coincides with an index point',
-        floor=0.3, class_floors=dict(_ON, empty_ts=0.03, proper_subset=0.2, letters=0.05, **{'lb>ub': 0.03})),
+             'rows, labels, dtypes and cells untouched, operand untouched. non-trivial = a bound coincides with an index point. Half of the cases repeat 1-2 stamps 2-3 times (non-decreasing index), preferably under a bound',
+        floor=0.3, class_floors=dict(_ON, empty_ts=0.03, proper_subset=0.2, letters=0.05, duplicate_stamp_on_open_bound=0.012, duplicate_stamp_on_closed_bound=0.012, **{'lb>ub': 0.03})),
     Sub('slice_tod', _tod_strategy, run_slice_tod, quick=3200, thorough=7000,
-        rule='intraday Series/DataFrames over 1-3 days (0-15 rows), datetime.time bounds (missing / on a row time / off), start <= end and start > end (wrap past midnight), '
+        rule='intraday Series/DataFrames over 1-4 days (0-32 rows, one case in 8 is long: 21-32 rows), datetime.time bounds (missing / on a row time / off), start <= end and start > end (wrap past midnight), '
              '4 bracket pairs, letter forms, default; oracle: filter on t.time(), wrap = (time after start) OR (time before end) with the given brackets. '
-             'non-trivial = a bound coincides with the time of day of a row',
-        floor=0.3, class_floors=dict(_ON, wrap=0.15, wrap_on_bound=0.08, window=0.15, one_sided=0.1)),
+             'non-trivial = a bound coincides with the time of day of a row. A third of the cases repeat 1-2 stamps 2-3 times',
+        floor=0.3, class_floors=dict(_ON, wrap=0.15, wrap_on_bound=0.08, window=0.15, one_sided=0.1, duplicate_stamp_on_open_bound=0.015, duplicate_stamps_wrap=0.015)),
     Sub('stitch', _stitch_strategy, run_stitch, quick=2400, thorough=4500,
         rule='1-5 (thorough: 1-6) series (dense, sparse, empty; floats with NaN or ints) on a daily axis, strictly monotonic bound lists given as ub= or lb=, increasing or decreasing, optionally open at the '
              'unbounded end, n from 1 to the number of series, brackets default / "(]" / "[)"; oracle: per-timestamp dictionary model - stamps of interval i come from series i..i+n-1, '
              'column j = series i+j or NaN, each stamp once, increasing; inputs untouched. non-trivial = >= 2 series, >= 2 result rows and (bound on a stamp, decreasing list, or n >= 2 with gaps)',
-        floor=0.3, class_floors={'dec': 0.2, 'n>=2_gaps': 0.2, 'bound_on_stamp': 0.2, 'form=lb': 0.1, 'nan_cell_from_gap': 0.1, 'several_sources': 0.2}),
+        floor=0.3, class_floors={'dec': 0.2, 'n>=2_gaps': 0.2, 'bound_on_stamp': 0.2, 'form=lb': 0.1, 'nan_cell_from_gap': 0.1, 'several_sources': 0.2, 'duplicate_stamp_on_bound': 0.01}),
     Sub('unslice', lambda tier: _stitch_strategy(tier, unslice=True), run_unslice, quick=800, thorough=2500,
         rule='frames stitched by df_slice(series, ub=increasing bounds, n >= 2) from 2-5 NaN-free float series with gaps; oracle: df_unslice gives a dict with one Series per bound, and '
              'stitching [res[b] for b in ub] with the same ub and n reproduces the frame (stamps, columns, cells, NaN positions); frame and bounds untouched. '
